@@ -1031,11 +1031,14 @@ walk_descents(cholmod_sparse *AtA_F,
 		pthread_cond_broadcast(&cv);
 		pthread_mutex_unlock(&mutex);
 
-		/* Wait for threads to finish calculations */
+		/*
+		 * Wait for threads to finish calculations. The workers may
+		 * all have reported before we get here, so the condition is
+		 * tested before (and after) every wait.
+		 */
 		int done = false;
 		pthread_mutex_lock(&mutex);
-		while (!done) {
-			pthread_cond_wait(&cv, &mutex);
+		while (1) {
 			done = true;
 			for (j = 0; j < n_threads; j++) {
 				if (i*n_threads + j >= n_alpha)
@@ -1043,6 +1046,9 @@ walk_descents(cholmod_sparse *AtA_F,
 				if (descent_trials[j].state != WAIT)
 					done = false;
 			}
+			if (done)
+				break;
+			pthread_cond_wait(&cv, &mutex);
 		}
 		pthread_mutex_unlock(&mutex);
 
